@@ -37,7 +37,12 @@ def cases(tier, seed):
                  seed="C12/%d/%d" % (seed, k))
         if c["buffered"] and c["fifo_depth"] < 2:
             c["fifo_depth"] = 2
-        c["name"] = "%04d-%s-%s-d%d%s-%s" % (k, c["engine"], c["port"], c["fifo_depth"], "b" if c["buffered"] else "", c["profile"])
+        # a third of the reader cases drop `enable` (the documented flush) at random moments and raise it again once the
+        # memory side is quiet: "stalled" keeps the consumer stalled during the flush, "free" lets it run
+        if e == "reader" and k % 3 == 0:
+            c["toggle"] = r.choice(["stalled", "stalled", "free"])
+        c["name"] = "%04d-%s-%s-d%d%s-%s%s" % (k, c["engine"], c["port"], c["fifo_depth"], "b" if c["buffered"] else "", c["profile"],
+                                                 "-en" + c["toggle"] if c.get("toggle") else "")
         c["cost"] = c["nwords"]
         out.append(c)
     # the same engines on a port of the real crossbar + controller + reference DRAM
@@ -49,7 +54,10 @@ def cases(tier, seed):
                  cmd_buffer_depth=r.choice([4, 8, 16]), refresh=(k % 6 != 5), seed="C12/%d/core/%d" % (seed, k))
         if c["buffered"] and c["fifo_depth"] < 2:
             c["fifo_depth"] = 2
-        c["name"] = "core%03d-%s-d%d%s-%s" % (k, c["engine"], c["fifo_depth"], "b" if c["buffered"] else "", c["profile"])
+        if c["engine"] == "reader" and k % 4 == 0:
+            c["toggle"] = r.choice(["stalled", "free"])
+        c["name"] = "core%03d-%s-d%d%s-%s%s" % (k, c["engine"], c["fifo_depth"], "b" if c["buffered"] else "", c["profile"],
+                                                "-en" + c["toggle"] if c.get("toggle") else "")
         c["cost"] = c["nwords"] * 6
         out.append(c)
     return out
@@ -64,6 +72,99 @@ def sink_profile(c, r):
     if p == "slow":
         return dict(ready_prob=0.15)
     return dict(ready_prob=0.9, long_stall=0.03, long_len=(100, 400))
+
+
+class EnableToggler:
+    """Drops the reader's `enable` at random moments (documented use: flush) and raises it again once the memory side has
+    answered everything outstanding and the output FIFO had time to drain.  windows = [(first cycle with enable low,
+    last cycle with enable low)]."""
+
+    def __init__(self, enable, stub, rng, depth):
+        self.enable, self.stub, self.rng, self.depth = enable, stub, rng, depth
+        self.windows = []
+        self.cycle = 0
+        self.low = False
+        self.stop = False
+        self.nonempty_disables = 0
+
+    def disabled(self):
+        return self.low
+
+    def process(self):
+        yield "passive"
+        yield self.enable.eq(1)
+        yield
+        self.cycle = 1
+        while True:
+            for _ in range(self.rng.choice([20, 60, 150, 400]) + self.rng.randint(0, 40)):
+                yield
+                self.cycle += 1
+            if self.stop:
+                while True:
+                    yield
+                    self.cycle += 1
+            if self.stub.outstanding():
+                self.nonempty_disables += 1
+            yield self.enable.eq(0)
+            self.low = True
+            t0 = self.cycle + 1
+            yield
+            self.cycle += 1
+            quiet = 0
+            while quiet < self.depth + 6 + self.extra:
+                quiet = quiet + 1 if self.stub.outstanding() == 0 else 0
+                yield
+                self.cycle += 1
+            yield self.enable.eq(1)
+            self.windows.append((t0, self.cycle))
+            self.low = False
+            yield
+            self.cycle += 1
+
+    extra = 4
+
+
+def check_epochs(tog, src, snk, exp, complete):
+    """Reader with enable toggling.  Epoch j = the enabled period before disable window j.  Addresses accepted in epoch j
+    must come out, while enabled, as a gap-free prefix of the epoch's expected (data, last) sequence, during the flush
+    as an ordered subsequence of the rest, and never after the re-enable; the final epoch must come out completely."""
+    v = []
+    bounds = [w[0] for w in tog.windows]          # first disabled cycle of each window
+    ends = [w[1] for w in tog.windows]
+
+    def epoch_of(cyc):
+        j = 0
+        while j < len(ends) and cyc > ends[j]:
+            j += 1
+        return j, (j < len(bounds) and cyc >= bounds[j])       # (epoch, inside its flush window)
+    nep = len(tog.windows) + 1
+    sent = [[] for _ in range(nep)]
+    for (cyc, i) in src.sent:
+        j, inwin = epoch_of(cyc)
+        if inwin:
+            v.append(dict(kind="address-accepted-while-disabled", cycle=cyc, index=i))
+        sent[j].append(i)
+    outs = [([], []) for _ in range(nep)]
+    for (cyc, g) in snk.got:
+        j, inwin = epoch_of(cyc)
+        outs[j][1 if inwin else 0].append((g["data"], g["last"]))
+    for j in range(nep):
+        e = [exp[i] for i in sent[j] if i < len(exp)]
+        en, fl = outs[j]
+        if en != e[:len(en)]:
+            k = next((i for i in range(min(len(en), len(e))) if en[i] != e[i]), min(len(en), len(e)))
+            v.append(dict(kind="reader-output-differs", epoch=j, index=k, n_expected=len(e), n_got=len(en),
+                          expected=[(hex(d), l) for d, l in e[k:k + 2]], got=[(hex(d), l) for d, l in en[k:k + 2]]))
+            break
+        rest = e[len(en):]
+        it = iter(rest)
+        if not all(any(x == y for y in it) for x in fl):
+            v.append(dict(kind="flush-output-not-a-subsequence", epoch=j, got=[(hex(d), l) for d, l in fl[:3]]))
+            break
+        if j == nep - 1 and complete and len(en) != len(e):
+            v.append(dict(kind="reader-output-differs", epoch=j, index=len(en), n_expected=len(e), n_got=len(en),
+                          note="final epoch not delivered completely"))
+    return v
 
 
 def run_case(c):
@@ -138,12 +239,21 @@ def run_case(c):
     if c["engine"] == "reader":
         items = [dict(address=a << shift, last=int(r.random() < 0.1 or k == n - 1)) for k, a in enumerate(addrs)]
         src = StreamSource(dut.dma.sink, items, r, valid_prob=c["src_valid"])
-        snk = StreamSink(dut.dma.source, ["data", "last"], r, **sink_profile(c, r))
-        procs = mem_proc + [src.process(), snk.process()]
+        tog = EnableToggler(dut.dma.enable, stub, r, c["fifo_depth"]) if c.get("toggle") else None
+        snk = StreamSink(dut.dma.source, ["data", "last"], r,
+                         hold_until=(tog.disabled if tog is not None and c["toggle"] == "stalled" else None), **sink_profile(c, r))
+        procs = mem_proc + [src.process(), snk.process()] + ([tog.process()] if tog is not None else [])
 
         def finished():
+            if tog is not None:
+                tog.stop = src.done
+                if not src.done or tog.disabled():
+                    return False
+                t_en = tog.windows[-1][1] if tog.windows else 0
+                return (sum(1 for (cy, _) in snk.got if cy > t_en) >= sum(1 for (cy, _) in src.sent if cy > t_en))
             return src.done and len(snk.got) >= n
     else:
+        tog = None
         items = [dict(address=a << shift, data=r.getrandbits(dw), last=int(k == n - 1)) for k, a in enumerate(addrs)]
         src = StreamSource(dut.dma.sink, items, r, valid_prob=c["src_valid"])
         procs = mem_proc + [src.process()]
@@ -175,13 +285,18 @@ def run_case(c):
     if c["engine"] == "reader":
         exp = [(store.read(a), it["last"]) for a, it in zip(addrs, items)][:len(src.sent)]
         got = [(g["data"], g["last"]) for (_, g) in snk.got]
-        if got != exp[:len(got)] or (not v and len(got) != len(exp)):
+        if tog is not None:
+            v += check_epochs(tog, src, snk, exp, complete=not (state.get("hang") or reason == "cycle-cap"))
+        elif got != exp[:len(got)] or (not v and len(got) != len(exp)):
             k = next((i for i in range(min(len(got), len(exp))) if got[i] != exp[i]), min(len(got), len(exp)))
             v.append(dict(kind="reader-output-differs", index=k, n_expected=len(exp), n_got=len(got),
                           expected=[(hex(d), l) for d, l in exp[k:k + 2]], got=[(hex(d), l) for d, l in got[k:k + 2]]))
         st = dict(words=len(got), sink_stalled_with_valid=snk.stalled_with_valid, max_outstanding=stub.max_out_seen,
                   src_stalled=src.stalled_cycles, cycles=cycles, drops=sum(1 for e in events if e["kind"] == "rdata-dropped"))
         nontrivial = len(got) >= 60 and (c["profile"] == "always" or snk.stalled_with_valid > 0) and src.stalled_cycles > 0
+        if tog is not None:
+            st.update(disables=len(tog.windows), flushed_words=len(exp) - len(got), disabled_with_words_inside=tog.nonempty_disables)
+            nontrivial = len(got) >= 30 and len(tog.windows) >= 2 and tog.nonempty_disables >= 1
     else:
         exp = [(a, it["data"]) for a, it in zip(addrs, items)][:len(src.sent)]
         got = stub.write_sequence()
@@ -204,7 +319,7 @@ def run_case(c):
         st = dict(words=len(got2), src_stalled=src.stalled_cycles, max_outstanding=stub.max_out_seen, cycles=cycles,
                   underruns=sum(1 for e in events if e["kind"] == "wdata-underrun"))
         nontrivial = len(got2) >= 60 and src.stalled_cycles > 0
-    sig = "|".join(str(x) for x in (c["engine"], c["port"], c["fifo_depth"], c["buffered"], c["profile"]))
+    sig = "|".join(str(x) for x in (c["engine"], c["port"], c["fifo_depth"], c["buffered"], c["profile"], c.get("toggle")))
     return dict(verdict="violated" if v else "held", violations=v[:8], stats=st, nontrivial=bool(nontrivial) or bool(v), signature=sig)
 
 
